@@ -3174,6 +3174,16 @@ static inline void thread_join(ABTI_local **pp_local, ABTI_thread *p_thread)
         ABTI_VERIF_BEGIN();
         int verif_state = ABTD_atomic_acquire_load_int(&p_thread->state);
         ABTI_VERIF_END(ABTI_VEV_STATE_LOAD, p_thread, 1, verif_state);
+        /* the recorded read is the one that decides (same fast path as below) */
+        if (verif_state == ABT_THREAD_STATE_TERMINATED) {
+            ABTI_event_thread_join(*pp_local, p_thread,
+                                   ABTI_local_get_xstream_or_null(*pp_local)
+                                       ? ABTI_local_get_xstream(*pp_local)
+                                             ->p_thread
+                                       : NULL);
+            return;
+        }
+        goto verif_join_slow_path;
     }
 #endif
     if (ABTD_atomic_acquire_load_int(&p_thread->state) ==
@@ -3184,6 +3194,9 @@ static inline void thread_join(ABTI_local **pp_local, ABTI_thread *p_thread)
                                    : NULL);
         return;
     }
+#ifdef ABT_VERIF
+verif_join_slow_path:
+#endif
     /* The primary ULT cannot be joined. */
     ABTI_ASSERT(!(p_thread->type & ABTI_THREAD_TYPE_PRIMARY));
 
